@@ -932,3 +932,21 @@ func ClassOf(p unsafe.Pointer) string {
 	}
 	return "?"
 }
+
+// ---- diagnostic block coverage (mkoverlay -blockcov; tools/covreport.py) ----
+
+var covHits [1 << 16]byte
+
+// Cov marks block id as executed.
+func Cov(id int) { covHits[id] = 1 }
+
+// CovDump lists the blocks executed by this process.
+func CovDump() []int {
+	var out []int
+	for i, h := range covHits {
+		if h != 0 {
+			out = append(out, i)
+		}
+	}
+	return out
+}
